@@ -18,6 +18,10 @@ pub mod postprocessing;
 pub mod preprocessing;
 pub mod result_print;
 
+/// **(verification hooks)** Observation points for an external conformance harness.
+#[cfg(hctl_verif)]
+pub mod verif_hooks;
+
 /// **(internal)** Several complex test scenarios for the model checking procedure.
 #[cfg(test)]
 mod _test_model_checking;
